@@ -7,6 +7,7 @@ drv_sendq — trace acceptance for the send-queue model (C12).
 
 `prog_i`: `-` or comma-separated `<id>s` (one stream write) / `<id>b` (three stream writes).
 Actions (the shared actions the real `_send` performed, in the order they happened; `t` = logical thread):
+  s<t>:<id>      `_send` was called with message <id> (thread-local: the datum is being serialised)
   a<t>:<id>      `_send_queue.append` of message <id>
   c<t>:<0|1>     truth test of the queue (the `while` or the re-check) and its result (1 = non-empty)
   l<t>:<0|1>     `_sendlock.acquire(False)` and its result
@@ -15,7 +16,10 @@ Actions (the shared actions the real `_send` performed, in the order they happen
   r<t>           `_sendlock.release()`
   x<t>           the `_send` call returned
   n<p>:<c>:<msg> thread <p> started a nested `_send(msg)`; its activation is logical thread <c>
-Anything else (an exception, a blocking acquire, an unknown piece, …) is rejected.
+  D              the transport failed (every later stream write raises)
+  f<t>:<id>.<k>  stream write of piece <k> of message <id> raised
+  e<t>:EOFError  the `_send` call ended with the transport's exception (only after its own failed write)
+Anything else (another exception, a blocking acquire, an unknown piece, …) is rejected.
 Answer: `accept <facts>` or `reject pos=<i> act=<token> why=<reason> pc=<pc of that thread> <facts>`.
 Not verified; exercised on every line.
 -/
@@ -25,6 +29,7 @@ open Rpyc.Conc.SendQ
 inductive Act where
   | app (t id : Nat) | test (t : Nat) (r : Bool) | tryl (t : Nat) (r : Bool) | pop (t id : Nat)
   | wr (t id k : Nat) | rel (t : Nat) | ret (t : Nat) | reent (p c : Nat) (m : Msg)
+  | brk | wfail (t id k : Nat) | exc (t : Nat) | start (t id : Nat)
 
 def splitOn (sep : Char) (cs : List Char) : List (List Char) :=
   let (cur, acc) := cs.foldl (fun (st : List Char × List (List Char)) c =>
@@ -48,9 +53,11 @@ def parseBit : List Char → Option Bool
 def parseAct (tok : String) : Option Act :=
   match tok.toList with
   | [] => none
+  | ['D'] => some .brk
   | k :: rest =>
     match k, (splitOn ':' rest) with
     | 'a', [t, i] => do some (.app (← parseNatChars t) (← parseNatChars i))
+    | 's', [t, i] => do some (.start (← parseNatChars t) (← parseNatChars i))
     | 'c', [t, r] => do some (.test (← parseNatChars t) (← parseBit r))
     | 'l', [t, r] => do some (.tryl (← parseNatChars t) (← parseBit r))
     | 'p', [t, i] => do some (.pop (← parseNatChars t) (← parseNatChars i))
@@ -61,11 +68,17 @@ def parseAct (tok : String) : Option Act :=
     | 'r', [t] => do some (.rel (← parseNatChars t))
     | 'x', [t] => do some (.ret (← parseNatChars t))
     | 'n', [p, c, m] => do some (.reent (← parseNatChars p) (← parseNatChars c) (← parseMsg m))
+    | 'f', [t, ik] =>
+      match splitOn '.' ik with
+      | [i, k] => do some (.wfail (← parseNatChars t) (← parseNatChars i) (← parseNatChars k))
+      | _ => none
+    | 'e', [t, name] => if name = "EOFError".toList then (parseNatChars t).map .exc else none
     | _, _ => none
 
 def pcName : PC → String
   | .idle => "idle" | .append m => s!"append({m.id})" | .check => "check" | .tryLock => "tryLock"
-  | .recheck => "recheck" | .pop => "pop" | .write => "write" | .release => "release" | .crash => "crash"
+  | .recheck => "recheck" | .pop => "pop" | .write => "write" | .release => "release"
+  | .releaseX => "releaseX" | .crash => "crash"
 
 def runT (s : St) (t : Nat) : Except String St :=
   match exec s (.run t) with
@@ -73,19 +86,55 @@ def runT (s : St) (t : Nat) : Except String St :=
   | none => .error (if blockedB s t then "thread-suspended-under-nested-send" else "no-step-enabled")
 
 def actTid : Act → Nat
-  | .app t _ | .test t _ | .tryl t _ | .pop t _ | .wr t _ _ | .rel t | .ret t | .reent t _ _ => t
+  | .app t _ | .test t _ | .tryl t _ | .pop t _ | .wr t _ _ | .rel t | .ret t | .reent t _ _
+  | .wfail t _ _ | .exc t | .start t _ => t
+  | .brk => 0
 
-/-- the model thread must be able to take the same action with the same result -/
-def applyAct (s : St) : Act → Except String St
-  | .app t id =>
+/-- the model thread must be able to take the same action with the same result.  `raising`: threads whose
+current call is ending with the transport's exception (between the failed write and the `e` action) -/
+def applyAct (s : St) (raising : List Nat) : Act → Except String (St × List Nat)
+  | .brk => .ok (breakTransport s, raising)
+  | .wfail t id k =>
+    match s.pc t, s.hand with
+    | .write, some h =>
+      if !s.dead then .error "model-transport-still-works"
+      else if h.2.id = id ∧ s.nw = k then (runT s t).map (fun s' => (s', t :: raising))
+      else .error s!"model-writes-{h.2.id}.{s.nw}"
+    | _, _ => .error "write-not-expected-here"
+  | .exc t =>
+    match s.pc t with
+    | .idle =>
+      if blockedB s t then .error "thread-suspended-under-nested-send"
+      else if raising.contains t then .ok (s, raising.erase t) else .error "model-call-returned-normally"
+    | _ => .error "exception-not-expected-here"
+  | .ret t =>
+    match s.pc t with
+    | .idle =>
+      if blockedB s t then .error "thread-suspended-under-nested-send"
+      else if raising.contains t then .error "model-call-ends-with-the-transport-exception" else .ok (s, raising)
+    | _ => .error "return-not-expected-here"
+  | .rel t =>
+    match s.pc t with
+    | .release | .releaseX => (runT s t).map (fun s' => (s', raising))
+    | _ => .error "release-not-expected-here"
+  | .wr t id k =>
+    match s.pc t, s.hand with
+    | .write, some h =>
+      if s.dead then .error "model-transport-has-failed"
+      else if h.2.id = id ∧ s.nw = k then (runT s t).map (fun s' => (s', raising))
+      else .error s!"model-writes-{h.2.id}.{s.nw}"
+    | _, _ => .error "write-not-expected-here"
+  | a => (applyAct0 s a).map (fun s' => (s', raising))
+where applyAct0 (s : St) : Act → Except String St
+  | .start t id =>
     match s.pc t, s.todo t with
-    | .idle, m :: _ =>
-      if m.id = id then do
-        let s1 ← runT s t
-        runT s1 t
-      else .error s!"model-thread-would-send-{m.id}"
+    | .idle, m :: _ => if m.id = id then runT s t else .error s!"model-thread-would-send-{m.id}"
     | .idle, [] => .error "thread-has-no-message-left"
-    | _, _ => .error "append-inside-a-send"
+    | _, _ => .error "call-inside-a-send"
+  | .app t id =>
+    match s.pc t with
+    | .append m => if m.id = id then runT s t else .error s!"model-appends-{m.id}"
+    | _ => .error "append-not-expected-here"
   | .test t r =>
     match s.pc t with
     | .check | .recheck =>
@@ -100,24 +149,12 @@ def applyAct (s : St) : Act → Except String St
     | .pop, h :: _ => if h.2.id = id then runT s t else .error s!"model-pops-{h.2.id}"
     | .pop, [] => .error "model-queue-empty"
     | _, _ => .error "pop-not-expected-here"
-  | .wr t id k =>
-    match s.pc t, s.hand with
-    | .write, some h =>
-      if h.2.id = id ∧ s.nw = k then runT s t else .error s!"model-writes-{h.2.id}.{s.nw}"
-    | _, _ => .error "write-not-expected-here"
-  | .rel t =>
-    match s.pc t with
-    | .release => runT s t
-    | _ => .error "release-not-expected-here"
-  | .ret t =>
-    match s.pc t with
-    | .idle => if blockedB s t then .error "thread-suspended-under-nested-send" else .ok s
-    | _ => .error "return-not-expected-here"
   | .reent p c m =>
     if c ≠ s.next then .error s!"model-would-name-the-nested-activation-{s.next}"
     else match exec s (.reent p m) with
       | some s' => .ok s'
       | none => .error "nested-send-not-possible-here"
+  | _ => .error "unreachable"
 
 def showB (b : Bool) : String := if b then "T" else "F"
 def showIds (l : List Nat) : String := if l.isEmpty then "-" else ",".intercalate (l.map toString)
@@ -125,7 +162,12 @@ def showIds (l : List Nat) : String := if l.isEmpty then "-" else ",".intercalat
 /-- per-thread order, computed (always true by `per_thread_order_all`; printed as a cross-check) -/
 def orderOk (s : St) : Bool :=
   (List.range s.next).all (fun t =>
-    ((s.out ++ s.hand.toList ++ s.queue).filter (fun it => it.1 == t)).map (·.2) ++ pending s t == s.prog t)
+    ((s.out ++ s.lost ++ s.hand.toList ++ s.queue).filter (fun it => it.1 == t)).map (·.2) ++ pending s t == s.prog t)
+
+/-- per OS thread: messages were appended in the order the `_send` calls started (true by `os_thread_order`
+when nested sends start past the append; may be false otherwise) -/
+def osOrderOk (s : St) : Bool :=
+  (List.range s.next).all (fun r => (onThread s r s.appended).isPrefixOf (onThread s r s.started))
 
 def allDone (s : St) : Bool := (List.range s.next).all (isDoneB s)
 
@@ -136,16 +178,17 @@ def stuck (s : St) : Bool :=
 def facts (s : St) : String :=
   s!"stuck={showB (stuck s)} done={showB (allDone s)} q={showIds (s.queue.map (·.2.id))} lock={showB s.lock} " ++
   s!"hand={match s.hand with | some h => toString h.2.id ++ "." ++ toString s.nw | none => "-"} " ++
-  s!"wire={showIds (s.out.map (·.2.id))} order={showB (orderOk s)} threads={s.next}"
+  s!"wire={showIds (s.out.map (·.2.id))} order={showB (orderOk s)} threads={s.next} " ++
+  s!"dead={showB s.dead} lost={showIds (s.lost.map (·.2.id))} stub={s.stub.length} osorder={showB (osOrderOk s)}"
 
-def runTrace (s : St) : Nat → List String → String
+def runTrace (s : St) (raising : List Nat) : Nat → List String → String
   | _, [] => "accept " ++ facts s
   | i, tok :: rest =>
     match parseAct tok with
     | none => s!"reject pos={i} act={tok} why=not-an-action-of-the-model pc=- " ++ facts s
     | some a =>
-      match applyAct s a with
-      | .ok s' => runTrace s' (i + 1) rest
+      match applyAct s raising a with
+      | .ok (s', r') => runTrace s' r' (i + 1) rest
       | .error e => s!"reject pos={i} act={tok} why={e} pc={pcName (s.pc (actTid a))} " ++ facts s
 
 def splitBar : List String → List String → Option (List String × List String)
@@ -160,7 +203,7 @@ def sendqOp : List String → String
       if progToks.length ≠ n then "bad-op" else
       match progToks.mapM parseProg with
       | none => "bad-op"
-      | some progs => runTrace (init n (fun t => progs.getD t [])) 0 acts
+      | some progs => runTrace (init n (fun t => progs.getD t [])) [] 0 acts
     | _, _ => "bad-op"
   | _ => "bad-op"
 
